@@ -16,9 +16,12 @@ every nesting depth, every input list, every flag set of the property, every fue
 element library: nothing in the proofs looks inside `CoreLib.elemFn`, so they cover every element whose table
 entry is the `process_element` boilerplate of a first-order function (237 entries of the current table).
 
-Stage reached: closures — lambdas (plain, map, filter, sort) with the call protocol — and list literals, on top of the closure-free fragment (literals, first-order elements, the 21 hand-written stack / context /
-input / register / printing templates of the closed core, variables, `if` chains, `for`, `while`, break / continue,
-the implicit output).  The full statement — the same for named functions and modifiers too — is `compile_correct` below as a comment; what is proved is named `…_partial_no_functions`.
+Stage reached: closures — lambdas (plain, map, filter, sort) with the call protocol —, list literals and named
+functions (definition, the parameter prologue with counts, names and `*`, the call by reference on the caller's
+stack, recursion), on top of the closure-free fragment (literals, first-order elements, the 21 hand-written stack /
+context / input / register / printing templates of the closed core, variables, `if` chains, `for`, `while`, break /
+continue, the implicit output).  The full statement — the same for modifiers too — is `compile_correct` below as a
+comment; what is proved is named `…_partial_no_modifiers`.
 The remaining constructs are executable in both interpreters and compared on every generated program by the
 `py-vs-ref`, `py` and `ref` streams of the check.
 -/
@@ -51,6 +54,15 @@ theorem call_protocol (cfg : Cfg) (env : TEnv) (hE : cfg.elements = env.elements
       Rel env A σ' π' :=
   sim_callLam cfg n (simAt_all cfg env hE n) h id argStack arity byref res rest σ' hr
 
+/-- **The named-function call**: `@f;` in the reference semantics — parameters popped from the caller's stack left to
+    right, the body in a frame of its own, the function's whole stack appended to what the caller has left — and
+    `stack += VAR_f(stack, self=None, ctx=ctx)` in the Python semantics end in related states. -/
+theorem named_call_protocol (cfg : Cfg) (env : TEnv) (hE : cfg.elements = env.elements) (n : Nat) (A : Option Val) (σ σ' : RSt)
+    (π : PSt) (h : Rel env A σ π) (name : Str) (sg : Sig)
+    (hr : callNamed cfg (n + 1) (sanitise name) σ = .ok (sg, σ')) :
+    ∃ π', execPL cfg (n + 1) (fnCallTemplate name) π = .ok (.normal, π') ∧ sg = .normal ∧ Rel env A σ' π' :=
+  sim_callNamed cfg n (simAt_all cfg env hE n) h name sg σ' hr
+
 /-
 Full statement (all structures of the property):
 
@@ -58,14 +70,13 @@ theorem compile_correct (cfg env) (hE : cfg.elements = env.elements) (hM : cfg.m
     (prog : List Structure) (code) (ht : transpileAst env prog = .ok code) (fuel flags inputs obs)
     (hr : refProgram cfg fuel flags inputs prog = .ok obs) : pyProgram cfg fuel flags inputs code = .ok obs
 
-Proved below for the fragment without named functions and modifiers (those are covered by the three
-correspondence streams).
+Proved below for the fragment without modifiers (those are covered by the three correspondence streams).
 -/
 
-/-- **C01, fragment with lambdas**: a program of the fragment that the reference semantics runs to an observation
+/-- **C01, everything but modifiers**: a program of the fragment that the reference semantics runs to an observation
     (final stack, printed text including the implicit output under the given flags) is run to the same
     observation by the Python semantics of its transpilation — all programs, inputs, flags, fuel. -/
-theorem compile_correct_partial_no_functions (cfg : Cfg) (env : TEnv) (hE : cfg.elements = env.elements)
+theorem compile_correct_partial_no_modifiers (cfg : Cfg) (env : TEnv) (hE : cfg.elements = env.elements)
     (prog : List Structure) (hf : Frag env.elements prog) (code : List PyStmt)
     (ht : transpileAst env prog = .ok code) (fuel : Nat) (flags : String) (inputs : List Val)
     (obs : List Val × String) (hr : refProgram cfg fuel flags inputs prog = .ok obs) :
@@ -100,7 +111,7 @@ theorem compile_correct_partial_no_functions (cfg : Cfg) (env : TEnv) (hE : cfg.
       | ret v => simp at hr
 
 /-- the fragment is not empty: `3(n2%[+|-X]:,){←a|←a‹→a}λ2|+[X];†ƛnd;` — `n`, a dyad, an `if` with a break inside a
-    `for`, duplicate and print, a `while` on a variable, a lambda with an early return called at once, a map lambda, a list literal `⟨1|:+|⟩` -/
+    `for`, duplicate and print, a `while` on a variable, a lambda with an early return called at once, a map lambda, a list literal `⟨1|:+|⟩`, a function `@f:1:x|←x+;` and its call `@f;` -/
 example : Frag Gen.elements
     [ .generic ⟨.number, [51]⟩,
       .forS [] [ .generic ⟨.general, [110]⟩, .generic ⟨.number, [50]⟩, .generic ⟨.general, [37]⟩,
@@ -109,7 +120,8 @@ example : Frag Gen.elements
       .whileS (some [.generic ⟨.vget, [97]⟩]) [.generic ⟨.vget, [97]⟩, .generic ⟨.general, [8249]⟩, .generic ⟨.vset, [97]⟩],
       .lam (some 2) [.generic ⟨.general, [43]⟩, .ifS [[.brk .lam]]], .generic ⟨.general, [8224]⟩,
       .lamOp .lmap [.generic ⟨.general, [110]⟩, .generic ⟨.general, [100]⟩],
-      .listS [[.generic ⟨.number, [49]⟩], [.generic ⟨.general, [58]⟩, .generic ⟨.general, [43]⟩], []] ] := by
+      .listS [[.generic ⟨.number, [49]⟩], [.generic ⟨.general, [58]⟩, .generic ⟨.general, [43]⟩], []],
+      .fnDef [102] [[49], [120]] [.generic ⟨.vget, [120]⟩, .generic ⟨.general, [43]⟩], .fnCall [102] ] := by
   decide +kernel
 
 /-- how much of the current element table the parametric element lemma covers -/
